@@ -75,6 +75,8 @@ def _judge_part(rep, case, part, observed, results, devsets, subsets, fid_of, no
         if common.canon(observed) == common.canon(results[k][part]):
             for name in d:
                 rep.known_finding(fid_of[name], stored)
+            if nontrivial:      # a reproduced finding is a compared, non-trivial case as well
+                rep.nontrivial.add(common.digest(dict(part=part, texts=case["texts"])))
             return "known"
     exp = results[0][part]
     why = f"{'_pos_crossref_list' if part == 'xrefs' else '_pos_rule_dict'} is {observed} but LoaderProc prescribes {exp}"
@@ -169,15 +171,22 @@ def replay(path):
         obs = D.load(case, work, tools=True)
     finally:
         shutil.rmtree(work, ignore_errors=True)
-    res, _ = tlc.oracle("OracleLoaderProc", [D.spec_view(case, id="0", want="c34", devsets=[[]])])
-    exp = res["0"]["res"][0]
+    open_devs = sorted({f["deviation"] for f in common.open_findings(PID)})
+    devsets, xs, ds = _devsets(open_devs)
+    res, _ = tlc.oracle("OracleLoaderProc", [D.spec_view(case, id="0", want="c34", devsets=devsets)])
+    results = res["0"]["res"]
     for k, v in sorted(case["texts"].items()):
         print(f"--- file {k}\n{v}")
     rc = 0
-    for part in ("xrefs", "rdict"):
+    for part, subsets in (("xrefs", xs), ("rdict", ds)):
         print(part, "observed:", obs.get(part))
-        print(part, "expected:", exp[part])
-        if c.get("part", part) == part and common.canon(obs.get(part)) != common.canon(exp[part]):
+        print(part, "expected:", results[0][part])
+        if c.get("part", part) != part or common.canon(obs.get(part)) == common.canon(results[0][part]):
+            continue
+        known = [d for d in subsets if common.canon(obs.get(part)) == common.canon(results[devsets.index(d)][part])]
+        if known:
+            print(part, "explained by the listed deviation(s)", known[0], "(known finding)")
+        else:
             rc = 1
     return rc
 
